@@ -54,8 +54,9 @@ def c_ev(kinds, busw=32, scheme="rev"):
         h.ensure(f"ens.clearsrc{i}", b(clear[i]) == z3.And(b(h.v(ev.pending.re)), b(z3.Extract(i, i, h.v(ev.pending.r)))))
     # software view through the real CSR bank: a bus write to the pending register's address raises re with r = written data
     simple = list(d.bank.simple_csrs)
-    if ev.pending in simple and busw >= n:
-        idx = simple.index(ev.pending)
+    psc = ev.pending if ev.pending in simple else (ev.pending.get_simple_csrs()[0] if busw >= n else None)   # pending is a compound CSRStatus: its bus word is its first simple CSR
+    if psc in simple and busw >= n:
+        idx = simple.index(psc)
         sel_wr = z3.And(b(h.v(d.bus.we)), z3.Extract(8, 0, h.v(d.bus.adr)) == K(idx, 9), z3.Extract(13, 9, h.v(d.bus.adr)) == K(0, 5))
         h.ensure("ens.swclear.re", b(h.n(ev.pending.re)) == sel_wr)
         h.ensure("ens.swclear.r", z3.Implies(sel_wr, h.n(ev.pending.r) == z3.Extract(n - 1, 0, h.v(d.bus.dat_w))))
